@@ -167,6 +167,15 @@ CORPUS_SRC = r'''(def corpus @[])
 (def selfdef-mk (fn mk [u v] (fn inner [y] [u v y selfdef-t (if (and (number? y) (> y 0)) ((get selfdef-t :a) (- y 1)))])))
 (put selfdef-t :a (selfdef-mk 1 2))
 (add "closure-selfdef" (selfdef-mk 3 4))
+# ... and two levels of it: D1's constants reach a closure of D2, whose constants reach closures of D2 *and* of D1
+#     (several functions are created while more than one definition is incomplete)
+(def sdn-t1 @{})
+(def sdn-t2 @[])
+(def sdn-mk1 (fn mk1 [u] (fn inner1 [y] [u y sdn-t1 (if (and (number? y) (> y 0)) ((get sdn-t1 :k) (- y 1)))])))
+(def sdn-mk2 (fn mk2 [v w] (fn inner2 [y] [v w y sdn-t2 (if (and (number? y) (> y 0)) ((get sdn-t2 (% y 4)) (- y 1)))])))
+(put sdn-t1 :k (sdn-mk2 10 11))
+(array/push sdn-t2 (sdn-mk2 12 13) (sdn-mk1 14) (sdn-mk2 15 16) (sdn-mk1 17))
+(add "closure-selfdef-nested" (sdn-mk1 18))
 
 
 (defn hex [b] (def out (buffer/new (* 2 (length b)))) (each c b (buffer/format out "%02x" c)) (string out))
